@@ -22,7 +22,7 @@ Definition isf (f : option obj) (o : obj) : bool :=
   match f with Some a => a =? o | None => false end.
 
 Definition cell_ok (c : cell) (n : nat) (fresh : bool) : Prop :=
-  rc c = n /\ dcount c = (if n =? 0 then (if fresh then 0 else 1) else 0).
+  rc c = n /\ dcount c + orph c = (if n =? 0 then (if fresh then 0 else 1) else 0).
 
 Definition GInv (s : state) (e : obj -> nat) (f : option obj) : Prop :=
   bad s = false /\
@@ -92,25 +92,41 @@ Proof.
   rewrite upd_app_last. apply last_last.
 Qed.
 
+Section KindsProofs.
+Variable nodel : var -> bool.
+Local Notation copy_assign := (CPtr.copy_assign nodel).
+Local Notation conv_copy_assign := (CPtr.conv_copy_assign nodel).
+Local Notation move_assign := (CPtr.move_assign nodel).
+Local Notation conv_move_assign := (CPtr.conv_move_assign nodel).
+Local Notation dtor := (CPtr.dtor nodel).
+Local Notation reset := (CPtr.reset nodel).
+Local Notation assign_fresh := (CPtr.assign_fresh nodel).
+Local Notation unify := (CPtr.unify nodel).
+Local Notation exec := (CPtr.exec nodel).
+Local Notation step := (CPtr.step nodel).
+Local Notation run := (CPtr.run nodel).
+Local Notation destroy_all := (CPtr.destroy_all nodel).
+Local Notation finish := (CPtr.finish nodel).
+
 (** ** bookkeeping: what each primitive leaves untouched *)
 
 Lemma vars_inc s p : vars (inc_reference s p) = vars s.
 Proof. destruct p as [o|]; simpl; auto. destruct (nth_error (cells s) o); reflexivity. Qed.
-Lemma vars_dec s p : vars (dec_reference s p) = vars s.
+Lemma vars_dec nd s p : vars (dec_reference nd s p) = vars s.
 Proof. destruct p as [o|]; simpl; auto. destruct (nth_error (cells s) o); reflexivity. Qed.
 
 Lemma getv_inc s p v : getv (inc_reference s p) v = getv s v.
 Proof. unfold getv. now rewrite vars_inc. Qed.
-Lemma getv_dec s p v : getv (dec_reference s p) v = getv s v.
+Lemma getv_dec nd s p v : getv (dec_reference nd s p) v = getv s v.
 Proof. unfold getv. now rewrite vars_dec. Qed.
 Lemma ptr_of_inc s p v : ptr_of (inc_reference s p) v = ptr_of s v.
 Proof. unfold ptr_of. now rewrite getv_inc. Qed.
-Lemma ptr_of_dec s p v : ptr_of (dec_reference s p) v = ptr_of s v.
+Lemma ptr_of_dec nd s p v : ptr_of (dec_reference nd s p) v = ptr_of s v.
 Proof. unfold ptr_of. now rewrite getv_dec. Qed.
 
 Lemma inc_setv_comm s v h p : inc_reference (setv s v h) p = setv (inc_reference s p) v h.
 Proof. destruct p as [o|]; simpl; auto. unfold setv; simpl. destruct (nth_error (cells s) o); reflexivity. Qed.
-Lemma dec_setv_comm s v h p : dec_reference (setv s v h) p = setv (dec_reference s p) v h.
+Lemma dec_setv_comm nd s v h p : dec_reference nd (setv s v h) p = setv (dec_reference nd s p) v h.
 Proof. destruct p as [o|]; simpl; auto. unfold setv; simpl. destruct (nth_error (cells s) o); reflexivity. Qed.
 
 Lemma getv_setv s v h w : v < length (vars s) -> getv (setv s v h) w = if v =? w then h else getv s w.
@@ -172,15 +188,15 @@ Proof.
   2:{ destruct Ho as [Hz Hf]. destruct (Hp o eq_refl) as [Hf'|Hpos]; [congruence|lia]. }
   assert (o < length (cells s)) as Hlt by (apply nth_error_Some; congruence).
   destruct Ho as [Hrc Hdc].
-  assert (dcount c = 0) as Hd0.
+  assert (dcount c = 0 /\ orph c = 0) as [Hd0 Ho0].
   { destruct (Hp o eq_refl) as [Hf'|Hpos].
-    - rewrite Hf' in Hdc. destruct (_ =? 0); auto.
-    - destruct (Nat.eqb_spec (cnt (vars s) o + e o) 0); [lia|auto]. }
+    - rewrite Hf' in Hdc. destruct (_ =? 0); lia.
+    - destruct (Nat.eqb_spec (cnt (vars s) o + e o) 0); lia. }
   split; simpl.
   - rewrite Hb, Hd0. reflexivity.
   - intros o'. destruct (Nat.eq_dec o o') as [<-|Hne].
     + rewrite nth_error_upd_eq by auto. rewrite Nat.eqb_refl. split; simpl; [lia|].
-      destruct (Nat.eqb_spec (cnt (vars s) o + (e o + 1)) 0); [lia|auto].
+      destruct (Nat.eqb_spec (cnt (vars s) o + (e o + 1)) 0); lia.
     + rewrite nth_error_upd_ne by auto.
       assert (isf (if isf f o then None else f) o' = isf f o') as Hf.
       { destruct f as [a|]; simpl; auto. destruct (Nat.eqb_spec a o); simpl; auto.
@@ -188,10 +204,10 @@ Proof.
       destruct (Nat.eqb_spec o o'); [congruence|]. rewrite Nat.add_0_r, Hf. apply H.
 Qed.
 
-Lemma G_dec s e e' p :
+Lemma G_dec nd s e e' p :
   GInv s e None ->
   (forall o, e o = e' o + ptsO p o) ->
-  GInv (dec_reference s p) e' None.
+  GInv (dec_reference nd s p) e' None.
 Proof.
   intros HG He. destruct p as [o|]; simpl.
   2:{ apply (G_ext _ _ _ _ HG). intros x. rewrite He. simpl. lia. }
@@ -203,12 +219,11 @@ Proof.
   destruct Ho as [Hrc Hdc]. simpl in Hdc.
   destruct (Nat.eqb_spec (cnt (vars s) o + e o) 0) as [|_]; [lia|].
   split; simpl.
-  - rewrite Hb, Hdc. simpl. destruct (Nat.eqb_spec (rc c) 0); [lia|reflexivity].
+  - assert (dcount c = 0) as -> by lia. rewrite Hb. simpl. destruct (Nat.eqb_spec (rc c) 0); [lia|reflexivity].
   - intros o'. destruct (Nat.eq_dec o o') as [<-|Hne].
     + rewrite nth_error_upd_eq by auto.
-      destruct (Nat.eqb_spec (rc c - 1) 0) as [Hz|Hnz]; split; simpl; try lia.
-      * destruct (Nat.eqb_spec (cnt (vars s) o + e' o) 0); lia.
-      * destruct (Nat.eqb_spec (cnt (vars s) o + e' o) 0); lia.
+      destruct (Nat.eqb_spec (rc c - 1) 0) as [Hz|Hnz]; [destruct nd|]; split; simpl; try lia;
+        destruct (Nat.eqb_spec (cnt (vars s) o + e' o) 0); lia.
     + rewrite nth_error_upd_ne by auto. pose proof (He o') as Heo'. simpl in Heo'.
       destruct (Nat.eqb_spec o o'); [congruence|]. rewrite Nat.add_0_r in Heo'. rewrite <- Heo'. apply H.
 Qed.
@@ -245,7 +260,7 @@ Proof.
     destruct H as [Hz _]. rewrite Nat.eqb_refl. split; simpl; [lia|]. rewrite Hz. reflexivity.
   - assert (nth_error (cells s) o = None) as Hn by (apply nth_error_None; lia).
     rewrite Hn in H.
-    replace (nth_error (cells s ++ [{| rc := 0; dcount := 0; val := x |}]) o) with (@None cell)
+    replace (nth_error (cells s ++ [{| rc := 0; dcount := 0; orph := 0; val := x |}]) o) with (@None cell)
       by (symmetry; apply nth_error_None; rewrite app_length; simpl; lia).
     destruct (Nat.eqb_spec (length (cells s)) o); [lia|]. tauto.
 Qed.
@@ -369,8 +384,8 @@ Qed.
 Lemma conv_move_assign_inv s v w : Inv s -> live s v = true -> live s w = true -> Inv (conv_move_assign s v w).
 Proof. apply move_assign_inv. Qed.
 
-Lemma release_inv s v h : Inv s -> live s v = true -> pts h = (fun _ => 0) ->
-  Inv (setv (dec_reference s (ptr_of s v)) v h).
+Lemma release_inv nd s v h : Inv s -> live s v = true -> pts h = (fun _ => 0) ->
+  Inv (setv (dec_reference nd s (ptr_of s v)) v h).
 Proof.
   intros HI Hv Hh. rewrite <- dec_setv_comm.
   apply G_dec with (e := fun x => ptsO (ptr_of s v) x).
@@ -379,8 +394,11 @@ Proof.
   - intros o. lia.
 Qed.
 
-Lemma dtor_inv s v : Inv s -> live s v = true -> Inv (dtor s v).
+Lemma dtor_k_inv nd s v : Inv s -> live s v = true -> Inv (dtor_k nd s v).
 Proof. intros. now apply release_inv. Qed.
+
+Lemma dtor_inv s v : Inv s -> live s v = true -> Inv (dtor s v).
+Proof. apply dtor_k_inv. Qed.
 
 Lemma reset_inv s v : Inv s -> live s v = true -> Inv (reset s v).
 Proof. intros. now apply release_inv. Qed.
@@ -403,8 +421,11 @@ Proof.
   rewrite !len_vars_setv. now rewrite vars_dec.
 Qed.
 
+Lemma vars_dtor_k nd s t : vars (dtor_k nd s t) = upd (vars s) t Dead.
+Proof. unfold dtor_k. simpl. now rewrite vars_dec. Qed.
+
 Lemma vars_dtor s t : vars (dtor s t) = upd (vars s) t Dead.
-Proof. unfold dtor. simpl. now rewrite vars_dec. Qed.
+Proof. apply vars_dtor_k. Qed.
 
 Lemma live_setv_other s v h w : v < length (vars s) -> v <> w -> live (setv s v h) w = live s w.
 Proof. intros Hv Hne. unfold live. rewrite getv_setv by auto. destruct (Nat.eqb_spec v w); [congruence|auto]. Qed.
@@ -412,7 +433,7 @@ Proof. intros Hv Hne. unfold live. rewrite getv_setv by auto. destruct (Nat.eqb_
 Lemma live_setv_same s v p : v < length (vars s) -> live (setv s v (Live p)) v = true.
 Proof. intros Hv. unfold live. rewrite getv_setv by auto. now rewrite Nat.eqb_refl. Qed.
 
-Lemma live_dec s p v : live (dec_reference s p) v = live s v.
+Lemma live_dec nd s p v : live (dec_reference nd s p) v = live s v.
 Proof. unfold live. now rewrite getv_dec. Qed.
 Lemma live_inc s p v : live (inc_reference s p) v = live s v.
 Proof. unfold live. now rewrite getv_inc. Qed.
@@ -451,9 +472,9 @@ Proof.
   pose proof (live_move_assign_src s2 v t Hv2 Ht2) as Ht3.
   pose proof (len_vars_move_assign s2 v t) as Hl3. rewrite Hl2 in Hl3.
   set (s3 := move_assign s2 v t) in *.
-  pose proof (dtor_inv s3 t H3 Ht3) as H4.
-  pose proof (vars_dtor s3 t) as Hvd.
-  change (Inv (pop_temp (dtor s3 t))).
+  pose proof (dtor_k_inv (nodel v) s3 t H3 Ht3) as H4.
+  pose proof (vars_dtor_k (nodel v) s3 t) as Hvd.
+  change (Inv (pop_temp (dtor_k (nodel v) s3 t))).
   apply G_pop; auto.
   - rewrite Hvd. intros Hnil. apply (f_equal (@length hnd)) in Hnil.
     rewrite length_upd, Hl3 in Hnil. discriminate.
@@ -470,7 +491,7 @@ Proof.
   destruct HI as [Hb H]. pose proof (H o) as Ho.
   destruct (nth_error (cells s) o) as [c|]; [|lia].
   destruct Ho as [_ Hdc]. simpl in Hdc.
-  destruct (Nat.eqb_spec (cnt (vars s) o + 0) 0); [lia|]. rewrite Hdc. simpl.
+  destruct (Nat.eqb_spec (cnt (vars s) o + 0) 0); [lia|]. assert (dcount c = 0) as -> by lia. simpl.
   assert (Inv (flag s false)) as HF by (apply G_flag_false; split; auto).
   destruct (rc c =? 1); [exact HF|].
   apply assign_fresh_inv; auto.
@@ -532,7 +553,7 @@ Qed.
 Theorem destroyed_iff_no_handle n ops o c :
   let s := run (init n) ops in
   nth_error (cells s) o = Some c ->
-  dcount c = (if handles s o =? 0 then 1 else 0).
+  dcount c + orph c = (if handles s o =? 0 then 1 else 0).
 Proof.
   intros s Hc. destruct (run_inv _ ops (init_inv n)) as [_ H]. specialize (H o). fold s in H.
   rewrite Hc in H. destruct H as [_ Hd]. unfold handles. simpl in Hd. now rewrite Nat.add_0_r in Hd.
@@ -545,7 +566,7 @@ Proof. apply (run_inv _ ops (init_inv n)). Qed.
 (** a handle never points to an object that does not exist *)
 Theorem handles_point_to_objects n ops v o :
   let s := run (init n) ops in
-  getv s v = Live (Some o) -> exists c, nth_error (cells s) o = Some c /\ dcount c = 0 /\ 0 < rc c.
+  getv s v = Live (Some o) -> exists c, nth_error (cells s) o = Some c /\ dcount c = 0 /\ orph c = 0 /\ 0 < rc c.
 Proof.
   intros s Hg. pose proof (run_inv _ ops (init_inv n)) as HI. fold s in HI.
   pose proof (G_live_pos _ _ _ _ _ HI Hg) as Hpos. destruct HI as [_ H]. specialize (H o).
@@ -556,25 +577,25 @@ Qed.
 (** objects are never removed from the heap list, Deleter calls are never undone, payloads never change *)
 Definition mono (s s' : state) : Prop :=
   forall o c, nth_error (cells s) o = Some c ->
-  exists c', nth_error (cells s') o = Some c' /\ dcount c <= dcount c' /\ val c' = val c.
+  exists c', nth_error (cells s') o = Some c' /\ dcount c <= dcount c' /\ orph c <= orph c' /\ val c' = val c.
 
 Lemma mono_refl s : mono s s.
 Proof. intros o c H. exists c. auto. Qed.
 
 Lemma mono_trans s1 s2 s3 : mono s1 s2 -> mono s2 s3 -> mono s1 s3.
 Proof.
-  intros H12 H23 o c H. destruct (H12 o c H) as (c2 & H2 & Hd2 & Hv2).
-  destruct (H23 o c2 H2) as (c3 & H3 & Hd3 & Hv3). exists c3. repeat split; auto; try lia; try congruence.
+  intros H12 H23 o c H. destruct (H12 o c H) as (c2 & H2 & Hd2 & Ho2 & Hv2).
+  destruct (H23 o c2 H2) as (c3 & H3 & Hd3 & Ho3 & Hv3). exists c3. repeat split; auto; try lia; try congruence.
 Qed.
 
 Lemma mono_same s0 s s' : cells s' = cells s -> mono s0 s -> mono s0 s'.
 Proof. intros Hc H o c Ho. rewrite Hc. now apply H. Qed.
 
 Lemma mono_upd s s' o c c' :
-  nth_error (cells s) o = Some c -> cells s' = upd (cells s) o c' -> dcount c <= dcount c' -> val c' = val c ->
-  mono s s'.
+  nth_error (cells s) o = Some c -> cells s' = upd (cells s) o c' -> dcount c <= dcount c' -> orph c <= orph c' ->
+  val c' = val c -> mono s s'.
 Proof.
-  intros Hc Hs Hd Hv o1 c1 H1. rewrite Hs. destruct (Nat.eq_dec o o1) as [<-|Hne].
+  intros Hc Hs Hd Hor Hv o1 c1 H1. rewrite Hs. destruct (Nat.eq_dec o o1) as [<-|Hne].
   - rewrite nth_error_upd_eq by (apply nth_error_Some; congruence).
     exists c'. rewrite Hc in H1. injection H1 as <-. auto.
   - rewrite nth_error_upd_ne by auto. exists c1. auto.
@@ -584,14 +605,14 @@ Lemma mono_inc s0 s p : mono s0 s -> mono s0 (inc_reference s p).
 Proof.
   intros H. eapply mono_trans; eauto. destruct p as [o|]; simpl; [|apply mono_refl].
   destruct (nth_error (cells s) o) as [c|] eqn:Hc; [|now apply mono_same with (s := s), mono_refl].
-  eapply mono_upd; [exact Hc | reflexivity | simpl; lia | reflexivity].
+  eapply mono_upd; [exact Hc | reflexivity | simpl; lia | simpl; lia | reflexivity].
 Qed.
 
-Lemma mono_dec s0 s p : mono s0 s -> mono s0 (dec_reference s p).
+Lemma mono_dec nd s0 s p : mono s0 s -> mono s0 (dec_reference nd s p).
 Proof.
   intros H. eapply mono_trans; eauto. destruct p as [o|]; simpl; [|apply mono_refl].
   destruct (nth_error (cells s) o) as [c|] eqn:Hc; [|now apply mono_same with (s := s), mono_refl].
-  destruct (rc c - 1 =? 0); (eapply mono_upd; [exact Hc | reflexivity | simpl; lia | reflexivity]).
+  destruct (rc c - 1 =? 0); [destruct nd|]; (eapply mono_upd; [exact Hc | reflexivity | simpl; lia | simpl; lia | reflexivity]).
 Qed.
 
 Lemma mono_setv s0 s v h : mono s0 s -> mono s0 (setv s v h).
@@ -620,7 +641,7 @@ Proof. intros H. unfold move_assign. destruct (optnat_eqb _ _); mono_steps. Qed.
 Lemma mono_assign_fresh s0 s v x : mono s0 s -> mono s0 (assign_fresh s v x).
 Proof.
   intros H. unfold assign_fresh. change (alloc s x) with (fst (alloc s x), length (cells s)). cbv iota beta.
-  unfold dtor, ctor_raw. mono_steps. apply mono_move_assign. mono_steps. apply mono_alloc. exact H.
+  unfold dtor_k, ctor_raw. mono_steps. apply mono_move_assign. mono_steps. apply mono_alloc. exact H.
 Qed.
 
 Lemma mono_unify s v : mono s (unify s v).
@@ -637,7 +658,7 @@ Proof.
   1:{ change (alloc s x) with (fst (alloc s x), length (cells s)). cbv iota beta. unfold ctor_raw.
       apply mono_inc, mono_setv, mono_alloc, mono_refl. }
   all: unfold ctor_default, ctor_nullptr, ctor_raw, copy_ctor, conv_copy_ctor, move_ctor, conv_move_ctor, copy_assign,
-      conv_copy_assign, conv_move_assign, reset, dtor, swap;
+      CPtr.conv_copy_assign, CPtr.conv_move_assign, CPtr.reset, CPtr.dtor, dtor_k, swap;
     try match goal with |- context [if ?b then _ else _] => destruct b end; mono_steps.
 Qed.
 
@@ -657,13 +678,14 @@ Theorem destroy_at_the_drop n ops op o c :
   let s' := fst (step s op) in
   nth_error (cells s) o = Some c ->
   exists c', nth_error (cells s') o = Some c' /\
-    dcount c' = dcount c + (if (0 <? handles s o) && (handles s' o =? 0) then 1 else 0) /\
+    dcount c' + orph c' = dcount c + orph c + (if (0 <? handles s o) && (handles s' o =? 0) then 1 else 0) /\
+    dcount c <= dcount c' /\ orph c <= orph c' /\
     (handles s o = 0 -> handles s' o = 0) /\ val c' = val c.
 Proof.
   intros s s' Hc.
   pose proof (run_inv _ ops (init_inv n)) as HI. fold s in HI.
   pose proof (step_inv s op HI) as HI'. fold s' in HI'.
-  destruct (mono_step s op o c Hc) as (c' & Hc' & Hm & Hv). fold s' in Hc'.
+  destruct (mono_step s op o c Hc) as (c' & Hc' & Hm & Hmo & Hv). fold s' in Hc'.
   exists c'. split; auto.
   destruct HI as [_ H], HI' as [_ H']. specialize (H o). specialize (H' o).
   rewrite Hc in H. rewrite Hc' in H'. destruct H as [Hrc Hd], H' as [Hrc' Hd']. simpl in Hd, Hd'.
@@ -684,7 +706,7 @@ Qed.
 Lemma len_vars_destroy_all s k : length (vars (destroy_all s k)) = length (vars s).
 Proof.
   induction k as [|k IH]; simpl; auto.
-  destruct (live (destroy_all s k) k); auto. unfold dtor. now rewrite len_vars_setv, vars_dec.
+  destruct (live (destroy_all s k) k); auto. unfold CPtr.dtor, dtor_k. now rewrite len_vars_setv, vars_dec.
 Qed.
 
 Lemma destroy_all_dead s k v : v < k -> live (destroy_all s k) v = false.
@@ -692,12 +714,12 @@ Proof.
   induction k as [|k IH]; intros Hv; [lia|]. simpl.
   destruct (Nat.eq_dec v k) as [->|Hne].
   - destruct (live (destroy_all s k) k) eqn:Hl; auto.
-    unfold dtor, live. rewrite getv_setv.
+    unfold CPtr.dtor, dtor_k, live. rewrite getv_setv.
     + now rewrite Nat.eqb_refl.
     + rewrite vars_dec. now apply live_range.
   - assert (live (destroy_all s k) v = false) as Hd by (apply IH; lia).
     destruct (live (destroy_all s k) k) eqn:Hl; auto.
-    unfold dtor. unfold live. rewrite getv_setv by (rewrite vars_dec; now apply live_range).
+    unfold CPtr.dtor, dtor_k. unfold live. rewrite getv_setv by (rewrite vars_dec; now apply live_range).
     destruct (Nat.eqb_spec k v); [congruence|]. rewrite getv_dec. exact Hd.
 Qed.
 
@@ -710,7 +732,7 @@ Qed.
 
 Theorem all_destroyed_at_end n ops o c :
   let s := finish (run (init n) ops) in
-  nth_error (cells s) o = Some c -> dcount c = 1 /\ rc c = 0.
+  nth_error (cells s) o = Some c -> dcount c + orph c = 1 /\ rc c = 0.
 Proof.
   intros s Hc. set (r := run (init n) ops) in *.
   pose proof (destroy_all_inv r (length (vars r)) (run_inv _ ops (init_inv n))) as HI.
@@ -742,3 +764,118 @@ Proof.
   intros H. unfold move_assign. rewrite H. destruct (ptr_of s w) as [a|]; simpl; [rewrite Nat.eqb_refl|]; reflexivity.
 Qed.
 
+
+(** ** only a no-delete handle can leave an object alive without owner: when no variable has the no-operation
+    Deleter, [orph] stays 0 and "destroyed" is literally "the Deleter [delete ptr] has run exactly once" *)
+Definition noorph (s : state) : Prop := forall o c, nth_error (cells s) o = Some c -> orph c = 0.
+
+Lemma noorph_same s s' : cells s' = cells s -> noorph s -> noorph s'.
+Proof. intros Hc H o c Ho. rewrite Hc in Ho. eauto. Qed.
+
+Lemma noorph_upd s s' o c c' :
+  nth_error (cells s) o = Some c -> cells s' = upd (cells s) o c' -> orph c' = orph c -> noorph s -> noorph s'.
+Proof.
+  intros Hc Hs Ho H o1 c1 H1. rewrite Hs in H1. destruct (Nat.eq_dec o o1) as [<-|Hne].
+  - rewrite nth_error_upd_eq in H1 by (apply nth_error_Some; congruence). injection H1 as <-. rewrite Ho. eauto.
+  - rewrite nth_error_upd_ne in H1 by auto. eauto.
+Qed.
+
+Lemma noorph_inc s p : noorph s -> noorph (inc_reference s p).
+Proof.
+  intros H. destruct p as [o|]; simpl; auto.
+  destruct (nth_error (cells s) o) as [c|] eqn:Hc; [|exact H].
+  eapply noorph_upd; [exact Hc | reflexivity | reflexivity | exact H].
+Qed.
+
+Lemma noorph_dec s p : noorph s -> noorph (dec_reference false s p).
+Proof.
+  intros H. destruct p as [o|]; simpl; auto.
+  destruct (nth_error (cells s) o) as [c|] eqn:Hc; [|exact H].
+  destruct (rc c - 1 =? 0); (eapply noorph_upd; [exact Hc | reflexivity | reflexivity | exact H]).
+Qed.
+
+Lemma noorph_setv s v h : noorph s -> noorph (setv s v h).
+Proof. now apply noorph_same. Qed.
+Lemma noorph_push s : noorph s -> noorph (push_temp s).
+Proof. now apply noorph_same. Qed.
+Lemma noorph_pop s : noorph s -> noorph (pop_temp s).
+Proof. now apply noorph_same. Qed.
+Lemma noorph_flag s b : noorph s -> noorph (flag s b).
+Proof. now apply noorph_same. Qed.
+Lemma noorph_alloc s x : noorph s -> noorph (fst (alloc s x)).
+Proof.
+  intros H o c Hc. simpl in Hc. destruct (Nat.lt_ge_cases o (length (cells s))) as [Hlt|Hge].
+  - rewrite nth_error_app1 in Hc by auto. eauto.
+  - rewrite nth_error_app2 in Hc by auto. destruct (o - length (cells s)) as [|k]; simpl in Hc.
+    + now injection Hc as <-.
+    + destruct k; discriminate.
+Qed.
+
+Ltac noorph_steps :=
+  repeat first [ apply noorph_setv | apply noorph_inc | apply noorph_dec | apply noorph_push | apply noorph_pop
+               | apply noorph_flag ];
+  auto.
+
+Section AllDefault.
+Hypothesis Hdef : forall v, nodel v = false.
+
+Lemma noorph_move_assign s v w : noorph s -> noorph (move_assign s v w).
+Proof. intros H. unfold CPtr.move_assign. rewrite Hdef. destruct (optnat_eqb _ _); noorph_steps. Qed.
+
+Lemma noorph_assign_fresh s v x : noorph s -> noorph (assign_fresh s v x).
+Proof.
+  intros H. unfold CPtr.assign_fresh. change (alloc s x) with (fst (alloc s x), length (cells s)). cbv iota beta.
+  unfold dtor_k, ctor_raw. rewrite Hdef. noorph_steps. apply noorph_move_assign. noorph_steps. now apply noorph_alloc.
+Qed.
+
+Lemma noorph_unify s v : noorph s -> noorph (unify s v).
+Proof.
+  intros H. unfold CPtr.unify. destruct (ptr_of s v); auto.
+  destruct (nth_error (cells s) o); [|noorph_steps].
+  destruct (rc c =? 1); [noorph_steps|]. apply noorph_assign_fresh. noorph_steps.
+Qed.
+
+Lemma noorph_exec s o : noorph s -> noorph (exec s o).
+Proof.
+  intros H. destruct o; cbn [CPtr.exec];
+    try (now apply noorph_assign_fresh); try (now apply noorph_move_assign); try (now apply noorph_unify).
+  1:{ change (alloc s x) with (fst (alloc s x), length (cells s)). cbv iota beta. unfold ctor_raw.
+      apply noorph_inc, noorph_setv. now apply noorph_alloc. }
+  all: unfold ctor_default, ctor_nullptr, ctor_raw, copy_ctor, conv_copy_ctor, move_ctor, conv_move_ctor, CPtr.copy_assign,
+      CPtr.conv_copy_assign, CPtr.conv_move_assign, CPtr.reset, CPtr.dtor, dtor_k, swap; rewrite ?Hdef;
+    try match goal with |- context [if ?b then _ else _] => destruct b end; noorph_steps.
+Qed.
+
+Lemma noorph_run s ops : noorph s -> noorph (run s ops).
+Proof.
+  revert s; induction ops as [|o t IH]; intros s H; simpl; auto.
+  apply IH. unfold CPtr.step. destruct (pre s o); simpl; auto using noorph_exec.
+Qed.
+
+(** the property as stated for the default Deleter: destroyed exactly once iff no handle points to the object *)
+Theorem default_destroyed_iff_no_handle n ops o c :
+  let s := run (init n) ops in
+  nth_error (cells s) o = Some c -> dcount c = (if handles s o =? 0 then 1 else 0) /\ orph c = 0.
+Proof.
+  intros s Hc. pose proof (destroyed_iff_no_handle n ops o c Hc) as Hd. fold s in Hd.
+  assert (orph c = 0) as Ho.
+  { apply (noorph_run (init n) ops) with (o := o); auto. intros o1 c1 H1. destruct o1; discriminate. }
+  split; auto. lia.
+Qed.
+End AllDefault.
+
+(** a no-delete handle that lets go last leaves the object alive: [dcount] is only ever incremented by a variable
+    with the default Deleter — in particular an object referenced only through no-delete handles is never destroyed
+    by CountingPtr (stated on one release) *)
+Lemma nodelete_release_never_destroys s p o c c' :
+  nth_error (cells s) o = Some c -> nth_error (cells (dec_reference true s p)) o = Some c' -> dcount c' = dcount c.
+Proof.
+  intros Hc Hc'. destruct p as [a|]; simpl in Hc'; [|congruence].
+  destruct (nth_error (cells s) a) as [ca|] eqn:Ha; simpl in Hc'; [|congruence].
+  destruct (Nat.eq_dec a o) as [->|Hne].
+  - rewrite nth_error_upd_eq in Hc' by (apply nth_error_Some; congruence).
+    rewrite Ha in Hc. injection Hc as <-. destruct (rc ca - 1 =? 0); injection Hc' as <-; reflexivity.
+  - rewrite nth_error_upd_ne in Hc' by auto. congruence.
+Qed.
+
+End KindsProofs.
